@@ -126,9 +126,26 @@ def r1(R, repo):
           host = f
           tn = [n for t in tos for n in c.nodes_for(t.call)]
           under = _under_context(f, s.call, tag)
+          hosts = []
           if not tos and '.' in q:
             # nested helper (e.g. grad_wrapper.process_out): the protocol lives in the enclosing function
-            host = mod.funcs.get(q.rsplit('.', 1)[0])
+            hosts = [mod.funcs.get(q.rsplit('.', 1)[0])]
+          elif not tos:
+            # module-level helper that only merges: the protocol lives in the functions that call it
+            hosts = [g_ for g_ in mod.funcs.values() if g_ is not f and any(astu.call_name(x) == f.name for x in astu.func_calls(g_))]
+          hosts = [h_ for h_ in hosts if h_ is not None]
+          if not tos and len(hosts) > 1:
+            under = True
+            for host in hosts:
+              hc = cfg_of(host)
+              htos = [t for t in _sites(host) if t.kind == 'to' and t.tag == tag]
+              calls = [n for x in astu.func_calls(host) if astu.call_name(x) == f.name for n in hc.nodes_for(x)]
+              tn2 = [n for t in htos for n in hc.nodes_for(t.call)]
+              ok = bool(tn2) and bool(calls) and all(hc.dominated(x, tn2) for x in calls)
+              under = under and (any(t == tag and kind == 'decorator' for kind, t, w in _own_context_tags(host)) or all(_under_context(host, x, tag) for x in astu.func_calls(host) if astu.call_name(x) == f.name))
+              R.judge(bool(tn2) and bool(calls), ok, key + ' after to_tree in ' + host.name, (f, s.call), 'the outer from_tree must come after a to_tree with tag %s in %s' % (tag, host.name))
+          elif not tos and len(hosts) == 1:
+            host = hosts[0]
             if host is not None:
               hc = cfg_of(host)
               htos = [t for t in _sites(host) if t.kind == 'to' and t.tag == tag]
@@ -137,6 +154,9 @@ def r1(R, repo):
               ok = bool(tn2) and bool(calls) and all(hc.dominated(x, tn2) for x in calls)
               under = any(t == tag and kind == 'decorator' for kind, t, w in _own_context_tags(host)) or all(_under_context(host, x, tag) for x in astu.func_calls(host) if astu.call_name(x) == f.name)
               R.judge(bool(tn2) and bool(calls), ok, key + ' after to_tree in ' + host.name, (f, s.call), 'the outer from_tree must come after a to_tree with tag %s in %s' % (tag, host.name))
+          elif not tos:
+            R.unsure(key + ' after to_tree', (f, s.call), '%s only merges (from_tree) and nothing in the module calls it: the matching to_tree was not found' % q)
+            under = True
           else:
             ok = bool(tn) and all(c.dominated(x, tn) for x in fn)
             R.judge(bool(tn), ok, key + ' after to_tree', (f, s.call), 'an outer from_tree(is_inner=False) must be dominated by a to_tree with the same tag %s' % tag)
